@@ -437,7 +437,7 @@ pub open spec fn cell_format_spec(formats: Seq<CellFormat>, buf: Seq<u8>) -> Opt
     ensures
         //# C03,C10.cell_format_lookup
         buf@.len() >= 7 ==> (match r { Some(f) => Some(*f), None => None }) == cell_format_spec(formats@, buf@),
-//@@ replace /u32::from_le_bytes/ std signature not nameable in assume_specification; wrapper with the documented contract
+//@@ replace? /u32::from_le_bytes/ std signature not nameable in assume_specification; wrapper with the documented contract
 verif_u32_from_le_bytes
 //@@ end
 
@@ -595,6 +595,13 @@ pub open spec fn cell_val_ok(typ: int, p: Seq<u8>, fmts: Seq<CellFormat>, strs: 
 }
 /// a cell record of a kind the reader reports (BrtFmlaError is handled by its own clause), well-formed
 pub open spec fn good_cell(sc: Scan, nstr: int) -> bool { sc is Cell && sc->typ != 0xB && cell_wf(sc->typ, sc->payload, nstr) }
+// (aliases of cell_val_ok: one name per match arm, so that a failing arm is reported under its own name)
+pub open spec fn val_error_ok(typ: int, p: Seq<u8>, fmts: Seq<CellFormat>, strs: Seq<String>, is_1904: bool, v: DataRef) -> bool { cell_val_ok(typ, p, fmts, strs, is_1904, v) }
+pub open spec fn val_bool_ok(typ: int, p: Seq<u8>, fmts: Seq<CellFormat>, strs: Seq<String>, is_1904: bool, v: DataRef) -> bool { cell_val_ok(typ, p, fmts, strs, is_1904, v) }
+pub open spec fn val_real_ok(typ: int, p: Seq<u8>, fmts: Seq<CellFormat>, strs: Seq<String>, is_1904: bool, v: DataRef) -> bool { cell_val_ok(typ, p, fmts, strs, is_1904, v) }
+pub open spec fn val_string_ok(typ: int, p: Seq<u8>, fmts: Seq<CellFormat>, strs: Seq<String>, is_1904: bool, v: DataRef) -> bool { cell_val_ok(typ, p, fmts, strs, is_1904, v) }
+pub open spec fn val_shared_string_ok(typ: int, p: Seq<u8>, fmts: Seq<CellFormat>, strs: Seq<String>, is_1904: bool, v: DataRef) -> bool { cell_val_ok(typ, p, fmts, strs, is_1904, v) }
+pub open spec fn val_rk_ok(typ: int, p: Seq<u8>, fmts: Seq<CellFormat>, strs: Seq<String>, is_1904: bool, v: DataRef) -> bool { cell_val_ok(typ, p, fmts, strs, is_1904, v) }
 pub open spec fn is_date_fmt(f: Option<CellFormat>) -> bool { f == Some(CellFormat::DateTime) || f == Some(CellFormat::TimeDelta) }
 
 //@@ impl src/xlsb/cells_reader.rs XlsbCellsReader
@@ -639,6 +646,41 @@ let verif_out; loop
 { verif_out = value; break; }
 //@@ before /let col = /
         let value = verif_out;
+//@@ before /break value;/
+            proof {
+                let nstr = self.strings@.len() as int;
+                let t = self.typ as int;
+                // the record the loop stopped at is the one `scan` designates
+                if good_cell(scan(s0, row0), nstr) {
+                    //# C03.cell_record_identified
+                    assert(scan(s0, row0) == (Scan::Cell { row: self.row, typ: t, payload: p, rest: self.iter.rem() }));
+                }
+                if is_cell_kind(t) && t != 0xB && cell_wf(t, p, nstr) {
+                    //# C03.col_bytes_untouched
+                    assert(self.buf@.len() >= 4 && self.buf@[0] == p[0] && self.buf@[1] == p[1] && self.buf@[2] == p[2] && self.buf@[3] == p[3]);
+                    //# C03.value_not_rejected
+                    assert(!cell_rejected(t, p));
+                    if t == 3 {
+                        //# C03.value_error
+                        assert(val_error_ok(t, p, self.formats@, self.strings@, self.is_1904, value));
+                    } else if t == 4 || t == 0xA {
+                        //# C03.value_bool
+                        assert(val_bool_ok(t, p, self.formats@, self.strings@, self.is_1904, value));
+                    } else if t == 5 || t == 9 {
+                        //# C03.value_real
+                        assert(val_real_ok(t, p, self.formats@, self.strings@, self.is_1904, value));
+                    } else if t == 6 || t == 8 {
+                        //# C03,C19.value_string
+                        assert(val_string_ok(t, p, self.formats@, self.strings@, self.is_1904, value));
+                    } else if t == 7 {
+                        //# C03,C19.value_shared_string
+                        assert(val_shared_string_ok(t, p, self.formats@, self.strings@, self.is_1904, value));
+                    } else if t == 2 {
+                        //# C03.value_rk
+                        assert(val_rk_ok(t, p, self.formats@, self.strings@, self.is_1904, value));
+                    }
+                }
+            }
 //@@ body
         let ghost s0 = self.iter.rem();
         let ghost row0 = self.row;
@@ -658,8 +700,6 @@ let verif_out; loop
                 ({ let sc = scan(s0, row0); sc is Cell && (sc->typ == 2 || sc->typ == 5 || sc->typ == 9) && cell_wf(sc->typ, sc->payload, self.strings@.len() as int)
                     ==> (verif_out is DateTime <==> is_date_fmt(cell_format_spec(self.formats@, sc->payload))) }),
             decreases self.iter.rem().len(),
-//@@ before /DataRef::Int\(v\)/
-                    assert(false);
 //@@ before /self\.buf\.clear\(\)/
             let ghost cur = self.iter.rem();
             let ghost row_h = self.row;
